@@ -7,6 +7,8 @@ R7.2 normalise / restore pairing: a temporary normalisation taken on the source 
 R7.3 entry points: FST.copy / FSTView.copy / get() call the kernel with the literal cut=False; the root-copy branch
      re-creates `self` in a finally; as_(copy=True) coerces the copy, never self.
 R7.4 cut = copy + delete by construction (non-statement single gets), shared handler parametrised by `cut` for slices.
+R7.5 cut leaves what delete leaves (slices): per (class, field) the repair helpers the put-slice handler applies to the remainder
+     on its delete path are also applied by the get-slice handler on its cut path.
 Not decided: structural equality of the extracted piece; token conservation.
 """
 from __future__ import annotations
@@ -138,6 +140,7 @@ def run(ctx):
                 ctx.bad('R7.2', fi.module, fi.key.split('.', 1)[1], k, why, line)
 
     check_entry_points(ctx)
+    check_cut_vs_delete(ctx)
 
 
 def check_entry_points(ctx):
@@ -205,3 +208,76 @@ def check_entry_points(ctx):
     hcalls = [n for n in walk_no_nested(g1.node) if isinstance(n, ast.Call) and isinstance(n.func, ast.Name) and n.func.id in ('handler', 'func')]
     ok = bool(hcalls) and all(any(isinstance(a, ast.Constant) and a.value is False for a in c.args) or any(isinstance(a, ast.Name) and a.id == 'cut' for a in c.args) for c in hcalls)
     ctx.check('R7.4', ok, g1.module, g1.qualname, 'handler(self, idx, field, <cut|False>, options)', 'single get dispatches the copy handler', g1.lineno)
+
+
+# ---- R7.5 ------------------------------------------------------------------------------------------------------------
+
+def _pruned_self_repairs(fi, truth):
+    """Names of the repair helpers (`_fix_*`, the repository's naming for "make the remainder valid again") applied to `self` on the
+    paths of `fi` that are feasible when the local names in `truth` have the given truth value."""
+    from ..cfg import CFG
+    cfg = CFG(fi.node)
+
+    def lit(e):
+        neg = False
+        while isinstance(e, ast.UnaryOp) and isinstance(e.op, ast.Not):
+            e, neg = e.operand, not neg
+        if isinstance(e, ast.Name) and e.id in truth:
+            return truth[e.id] != neg
+        return None
+
+    def ok(n, lab, s):
+        if lab == 'exc':
+            return False
+        if n.kind == 'test' and lab in ('true', 'false'):
+            v = lit(n.ast)
+            if v is not None:
+                return lab == ('true' if v else 'false')
+            if isinstance(n.ast, ast.BoolOp):
+                vals = [lit(c) for c in n.ast.values]
+                if isinstance(n.ast.op, ast.And) and False in vals and lab == 'true':
+                    return False
+                if isinstance(n.ast.op, ast.Or) and True in vals and lab == 'false':
+                    return False
+        return True
+    reach = cfg.reachable(cfg.entry, ok) | {cfg.entry}
+    out = {}
+    for i in reach:
+        for x in subnodes(cfg, cfg.nodes[i]):
+            if isinstance(x, ast.Call) and (call_name(x) or '').startswith('_fix_'):
+                recv = x.func.value if isinstance(x.func, ast.Attribute) else (x.args[0] if x.args else None)
+                if isinstance(recv, ast.Name) and recv.id == 'self':
+                    out.setdefault(call_name(x), x.lineno)
+    return out
+
+
+def check_cut_vs_delete(ctx):
+    GS = ctx.ev.get('fst_get_slice', '_GET_SLICE_HANDLERS')
+    PS = ctx.ev.get('fst_put_slice', '_PUT_SLICE_HANDLERS')
+    ctx.rule('R7.5', 'per (class, field): every repair helper (`_fix_*`) the put-slice handler applies to `self` on its delete path '
+                     '(code is None) is applied by the get-slice handler on its cut path', 25)
+    seen = set()
+    for k, g in GS.items():
+        p = PS.get(k)
+        if not isinstance(g, FuncTok) or not isinstance(p, FuncTok) or (g.key, p.key) in seen:
+            continue
+        seen.add((g.key, p.key))
+        gfs, pfs = ctx.repo.mod(g.module).func(g.qualname), ctx.repo.mod(p.module).func(p.qualname)
+        if not gfs or not pfs:
+            continue
+        gf, pf = gfs[0], pfs[0]
+        if 'cut' not in [a.arg for a in gf.node.args.args] or 'code' not in [a.arg for a in pf.node.args.args]:
+            continue
+        none = {'code': False}
+        for x in walk_no_nested(pf.node):
+            if isinstance(x, ast.Assign) and len(x.targets) == 1 and isinstance(x.targets[0], ast.Name) and isinstance(x.value, ast.Call) and \
+                    (call_name(x.value) or '').startswith('_code_to_slice') and any(isinstance(a, ast.Name) and a.id == 'code' for a in x.value.args):
+                none[x.targets[0].id] = False        # the converted code: falsy exactly when code is None (delete)
+        G = _pruned_self_repairs(gf, {'cut': True})
+        P = _pruned_self_repairs(pf, none)
+        missing = sorted(set(P) - set(G))
+        ctx.check('R7.5', not missing, gf.module, gf.qualname, f'cut applies the delete repairs of {pf.qualname}',
+                  f'deleting through {pf.qualname} repairs the remainder with {missing} (line {P[missing[0]] if missing else 0}) but the cut '
+                  f'path of {gf.qualname} does not: a cut can leave source that the delete would have repaired (e.g. a lone tuple item '
+                  f'read back as several items)', gf.lineno,
+                  sample={'get': gf.key, 'put': pf.key, 'delete_repairs': sorted(P), 'cut_repairs': sorted(G)})
